@@ -97,17 +97,15 @@ func (srv *Srv) attach(req *SrvReq) {
 		return
 	}
 
+	/* the afid is looked up before the new fid exists, a fid can't be its own afid */
+	if tc.Afid != NOFID {
+		req.Afid = conn.FidGet(tc.Afid)
+	}
+
 	req.Fid = conn.FidNew(tc.Fid)
 	if req.Fid == nil {
 		req.RespondError(Einuse)
 		return
-	}
-
-	if tc.Afid != NOFID {
-		req.Afid = conn.FidGet(tc.Afid)
-		if req.Afid == nil {
-			req.RespondError(Eunknownfid)
-		}
 	}
 
 	var user User
@@ -119,6 +117,11 @@ func (srv *Srv) attach(req *SrvReq) {
 
 	if user == nil {
 		req.RespondError(Enouser)
+		return
+	}
+
+	if tc.Afid != NOFID && req.Afid == nil {
+		req.RespondError(Eunknownfid)
 		return
 	}
 
